@@ -174,3 +174,62 @@ def validate_traces(docs, module="Trace", jobs=14, per_batch=None, timeout=1500)
         return results, {"states": states, "jvms": len(batches), "wall_s": round(time.time() - t0, 2)}
     finally:
         shutil.rmtree(wd, ignore_errors=True)
+
+
+def _pairs_batch(args):
+    docs, idx, wd, timeout = args
+    f = os.path.join(wd, f"pairs_{idx}.json")
+    with open(f, "w") as fh:
+        json.dump(docs, fh)
+    env = dict(os.environ)
+    env["TRACE_FILE"] = f
+    cmd = _java("4g") + ["-workers", "1", "-metadir", os.path.join(wd, f"pmeta_{idx}"), "-noGenerateSpecTE",
+                         "-config", "Equiv.cfg", "Equiv.tla"]
+    try:
+        p = subprocess.run(cmd, cwd=SPEC_DIR, capture_output=True, text=True, timeout=timeout, env=env)
+        out = p.stdout + p.stderr
+    except subprocess.TimeoutExpired as ex:
+        out = ((ex.stdout or b"").decode() if isinstance(ex.stdout, bytes) else (ex.stdout or "")) + "\nTIMEOUT"
+    verdicts = {}
+    for line in out.splitlines():
+        line = line.strip()
+        if line.startswith('"[\\"VERDICT\\"'):
+            v = json.loads(json.loads(line))
+            verdicts[v[1]] = v[2]
+    m = re.findall(r"(\d[\d,]*) states generated, (\d[\d,]*) distinct states found", out)
+    states = int(m[-1][0].replace(",", "")) if m else 0
+    os.remove(f)
+    shutil.rmtree(os.path.join(wd, f"pmeta_{idx}"), ignore_errors=True)
+    return idx, verdicts, states, out
+
+
+def validate_pairs(pairs, jobs=14, timeout=1200):
+    """pairs: list of pair documents (equiv.pair_doc).  Returns (verdicts, stats); verdicts[i] is the record Judge(p)."""
+    if not pairs:
+        return [], {"states": 0, "jvms": 0, "wall_s": 0.0}
+    wd = scratch("verif_eq_")
+    try:
+        n = len(pairs)
+        nb = min(jobs, n)
+        batches = [[] for _ in range(nb)]
+        order = sorted(range(n), key=lambda i: -(len(pairs[i]["rowsA"]) + len(pairs[i]["rowsB"])))
+        loads = [0] * nb
+        for i in order:
+            b = loads.index(min(loads))
+            batches[b].append(i)
+            loads[b] += len(pairs[i]["rowsA"]) + len(pairs[i]["rowsB"]) + 100
+        t0 = time.time()
+        res = [None] * n
+        states = 0
+        with ThreadPoolExecutor(max_workers=jobs) as ex:
+            futs = [ex.submit(_pairs_batch, ([pairs[i] for i in b], k, wd, timeout)) for k, b in enumerate(batches)]
+            for fu in futs:
+                idx, verdicts, st, out = fu.result()
+                states += st
+                for pos, i in enumerate(batches[idx]):
+                    if pos + 1 not in verdicts:
+                        raise TLCError(f"TLC produced no verdict for pair {i}:\n" + out[-4000:])
+                    res[i] = verdicts[pos + 1]
+        return res, {"states": states, "jvms": nb, "wall_s": round(time.time() - t0, 2)}
+    finally:
+        shutil.rmtree(wd, ignore_errors=True)
